@@ -369,6 +369,45 @@ m("c19_enum_string_payload_some_none", "C19", r"C19\.ENUM:deserialize_enum:map-f
   "tera/src/value/de.rs", "                (variant.as_value(), Some(value.clone()))", "                (variant.as_value(), if value.as_str() == Some(\"\") { None } else { Some(value.clone()) })")
 m("c17_deleg_upper_ascii", "C17", r"C17\.DELEG:filters::upper", "upper uses the ASCII-only upper-casing",
   "tera/src/filters.rs", "    val.to_uppercase()", "    val.to_ascii_uppercase()")
+# ---------------------------------------------------------------- round 8
+m("c02_in_array_by_string_form", "C02", r"C02\.IN:array:element-wise-value-eq", "`in` on arrays compares printed forms for string needles",
+  "tera/src/value/mod.rs", "            ValueInner::Array(arr) => Ok(arr.contains(needle)),", "            ValueInner::Array(arr) => Ok(arr.contains(needle) || needle.as_str().is_some_and(|s| arr.iter().any(|v| v.to_string() == s))),")
+m("c04_template_new_skips_trailing_nodes", "C04", r"C04\.BLOCK:Template::new:compiles-every-node", "a child template's nodes after the last top-level block are not compiled",
+  "tera/src/template.rs", "        body_compiler.compile(parser_output.nodes);", "        let mut nodes = parser_output.nodes;\n        if extends.is_some() {\n            nodes.retain(|n| !matches!(n, crate::parsing::ast::Node::Content(_)));\n        }\n        body_compiler.compile(nodes);")
+m("c05_type_integer_accepts_whole_floats", "C05", r"C05\.TYPE:matches_value:(by-kind-only|Integer)", "integer parameters accept any value with an integer view",
+  "tera/src/parsing/ast.rs", """            Type::Integer => matches!(
+                value.kind(),
+                ValueKind::I64 | ValueKind::U64 | ValueKind::I128 | ValueKind::U128
+            ),""", """            Type::Integer => value.as_i128().is_some() || value.as_u128().is_some(),""")
+m("c09_fused_writepath_root_via_get", "C09", r"C09\.FUSED:WritePath:root-resolved-like-LoadName", "WritePath resolves its root through State::get::<Value>",
+  "tera/src/vm/interpreter.rs", """                    let root = if path.len() == 1 && path[0] == MAGICAL_DUMP_VAR {
+                        state.dump_context()
+                    } else {
+                        state.get_value(&path[0])
+                    };""", """                    let root = if path.len() == 1 && path[0] == MAGICAL_DUMP_VAR {
+                        state.dump_context()
+                    } else {
+                        state.context.data.get(path[0].as_str()).cloned().unwrap_or_else(|| state.get_value(&path[0]))
+                    };""")
+m("c11_resolve_prefixes_any_time", "C11", r"C11\.RESOLVE:fallback_prefixes-writer", "set_fallback_prefixes no longer insists on an empty instance",
+  "tera/src/tera.rs", """        if !self.templates.is_empty() {
+            return Err(Error::message(
+                "set_fallback_prefixes must be called before adding templates",
+            ));
+        }
+        self.fallback_prefixes""", """        self.fallback_prefixes""")
+m("c12_span_expand_keeps_col", "C12", r"C12\.POS:Span::expand:end-triple-from-one-span", "Span::expand keeps the larger end column",
+  "tera/src/utils.rs", "        self.end_col = other.end_col;", "        self.end_col = other.end_col.max(self.end_col);")
+m("c13_float_to_int_in_round", "C13", r"C13\.CONV:float-to-int:", "Number::is_zero compares a truncated float",
+  "tera/src/value/number.rs", "            Number::Float(f) => f.is_finite() && f == &0.0,", "            Number::Float(f) => f.is_finite() && (*f as i64) == 0 && f.fract() == 0.0,")
+m("c15_keynum_ord_mixed_only", "C15", r"C15\.KEYNUM:ord:same-sign-pairs-compare-payloads", "two signed keys are compared through their distance from zero",
+  "tera/src/value/key.rs", "            (KeyNumber::Signed(a), KeyNumber::Signed(b)) => a.cmp(&b),", "            (KeyNumber::Signed(a), KeyNumber::Signed(b)) => (a >= 0, a.unsigned_abs()).cmp(&(b >= 0, b.unsigned_abs())),")
+m("c17_typetest_float_via_accessor", "C17", r"C17\.TYPETEST:is_float:by-kind-only", "`float` is true for anything with a float view",
+  "tera/src/tests.rs", """pub(crate) fn is_float(val: &Value, _: Kwargs, _: &State) -> bool {
+    val.is_f64()""", """pub(crate) fn is_float(val: &Value, _: Kwargs, _: &State) -> bool {
+    val.as_f64().is_some() && !val.is_bool()""")
+m("c17_deleg_last_by_index", "C17", r"C17\.DELEG:filters::last", "last indexes len - 1 by hand",
+  "tera/src/filters.rs", "    Ok(val.last().cloned().unwrap_or(Value::none()))", "    Ok(val.get(val.len().wrapping_sub(1)).cloned().unwrap_or(Value::none()))")
 # ---------------------------------------------------------------- C05
 m("c05_iso_global", "C05", r"C05\.ISO:writer:global_context", "render_component gives the component the global context",
   "tera/src/vm/interpreter.rs", """        let mut state = State::new_with_chunk(&context, chunk);
